@@ -64,7 +64,7 @@ func srcLine(file string, line int) string {
 // clauseKey identifies what an obligation is about independently of ordinals and line numbers.
 func clauseKey(o *Obligation) string {
 	switch o.Kind {
-	case "post", "pre", "inv-init", "inv-pres", "global", "lemma", "cost", "assert", "unwind":
+	case "post", "pre", "inv-init", "inv-pres", "global", "lemma", "cost", "assert", "unwind", "step":
 		k := o.Func + "/" + o.Kind + "/"
 		if o.Label != "" {
 			k += o.Label + "#"
@@ -338,6 +338,17 @@ type Evidence struct {
 	Violations  int                    `json:"violations"`
 }
 
+// loadAvg: the 1-minute load average (0 when it cannot be read).
+func loadAvg() float64 {
+	b, err := os.ReadFile("/proc/loadavg")
+	if err != nil {
+		return 0
+	}
+	var l float64
+	fmt.Sscanf(string(b), "%f", &l)
+	return l
+}
+
 func cmdCheck(args []string) {
 	fs := flag.NewFlagSet("check", flag.ExitOnError)
 	repo := fs.String("repo", "/repo", "repository")
@@ -415,6 +426,28 @@ func cmdCheck(args []string) {
 		fmt.Println("ERROR", err)
 		os.Exit(2)
 	}
+	// a heavily loaded machine can make dozens of normally instant queries time out at once; in that case the whole run is
+	// repeated once after a pause instead of being judged
+	{
+		nFail := 0
+		for _, fc := range res.fcs {
+			for _, o := range fc.obls {
+				if o.Kind != "canary" && only(o) && o.Status != "unsat" {
+					if e, ok := base.Entries[clauseKey(o)]; ok && e.Discharged {
+						nFail++
+					}
+				}
+			}
+		}
+		if nFail > 40 && loadAvg() > 20 {
+			fmt.Printf("note: %d claimed obligations undischarged at load %.0f; repeating the run once\n", nFail, loadAvg())
+			time.Sleep(30 * time.Second)
+			res2, err2 := runAll(*repo, *verif, timeout*2, only, os.Getenv("GOVC_SCRATCH"))
+			if err2 == nil {
+				res = res2
+			}
+		}
+	}
 	exit := 0
 	// Second opinion for obligations that were claimed at baseline and did not discharge: under load a solver may time out on
 	// a query it normally answers. Re-run those alone with a long timeout before calling anything a violation (a genuine
@@ -441,34 +474,67 @@ func cmdCheck(args []string) {
 				fmt.Printf("failed before retry: %s %s\n", r.o.Name, r.o.Status)
 			}
 		}
-		if len(rs) > 0 && len(rs) <= 12 {
+		// stage 2: up to 40 failing obligations, four at a time (each races four solvers), 45 s each
+		// stage 3: what still fails is run strictly one at a time with a long budget (longer when the machine is loaded);
+		// bounded in number so that a genuinely broken tree is still reported in reasonable time
+		load := loadAvg()
+		scale := 1
+		if load > 20 {
+			scale = 2
+		}
+		if load > 40 {
+			scale = 3
+		}
+		stage := func(list []retry, par int, budget int, tag string) []retry {
+			if len(list) == 0 {
+				return nil
+			}
 			dir, err := os.MkdirTemp("", "govc-retry")
-			if err == nil {
-				jobs := make(chan struct{}, 16)
-				var wg sync.WaitGroup
-				graceS = 45
-				for i := range rs {
-					r := rs[i]
-					hdr, err := res.w.scriptHeader(r.fc)
-					if err != nil {
-						continue
-					}
-					sub := filepath.Join(dir, fmt.Sprintf("r%d", i))
-					os.MkdirAll(sub, 0o755)
-					wg.Add(1)
-					go func() {
-						defer wg.Done()
-						res.w.Discharge(r.fc, hdr, sub, 45, func(x *Obligation) bool { return x == r.o }, jobs)
-					}()
+			if err != nil {
+				return list
+			}
+			jobs := make(chan struct{}, 16)
+			sem := make(chan struct{}, par)
+			var wg sync.WaitGroup
+			graceS = budget
+			for i := range list {
+				r := list[i]
+				hdr, err := res.w.scriptHeader(r.fc)
+				if err != nil {
+					continue
 				}
-				wg.Wait()
+				sub := filepath.Join(dir, fmt.Sprintf("r%d", i))
+				os.MkdirAll(sub, 0o755)
+				wg.Add(1)
+				sem <- struct{}{}
+				go func() {
+					defer wg.Done()
+					defer func() { <-sem }()
+					res.w.Discharge(r.fc, hdr, sub, budget, func(x *Obligation) bool { return x == r.o }, jobs)
+				}()
+			}
+			wg.Wait()
+			var still []retry
+			for _, r := range list {
 				if os.Getenv("GOVC_DEBUG_RETRY") != "" {
-					for _, r := range rs {
-						fmt.Printf("retry: %s -> %s by %s (%s)\n", r.o.Name, r.o.Status, r.o.Solver, dir)
-					}
-				} else {
-					os.RemoveAll(dir)
+					fmt.Printf("retry(%s): %s -> %s by %s\n", tag, r.o.Name, r.o.Status, r.o.Solver)
 				}
+				if r.o.Status != "unsat" {
+					still = append(still, r)
+				}
+			}
+			os.RemoveAll(dir)
+			return still
+		}
+		if len(rs) > 0 && len(rs) <= 40 {
+			still := stage(rs, 4, 45*scale, "2")
+			max3 := 4
+			budget3 := 90
+			if *tier == "thorough" {
+				max3, budget3 = 12, 180
+			}
+			if len(still) > 0 && len(still) <= max3 {
+				stage(still, 1, budget3*scale, "3")
 			}
 		}
 	}
